@@ -6,6 +6,8 @@ from props.base import to_request, corpus_for  # noqa: F401
 from props import dbcommon
 
 ID = 'C14'
+HANG_CLAUSE = 'terminates'
+CASE_TIMEOUT = 60
 LEAN_MODULES = ['PybtexModel.Props.C14']
 THEOREMS = {
     'C14_own_field_wins': 'a field the entry defines itself always wins',
